@@ -190,6 +190,22 @@ def execute(scn, L):
     try:
         ref = R.ref_parse(data, spans)
     except R.RefReject as e:
+        if canonical:
+            # the library's own output, and the reference parser refuses it
+            # (that is C02's business) - but whatever the library writes it
+            # must at least be able to load again
+            out.probe('own_output_not_wellformed:' + e.kind)
+
+            try:
+                load(L, w, data, scn.get('via', 'from_stream'),
+                     scn.get('block_size'))
+            except Exception as e2:
+                es = exc_summary(e2, L)
+                out.violate('C06.canonical-not-loadable', '%s:%s' % (
+                    es['type'], es['func']), {'exc': es,
+                                              'reference_parser': e.kind})
+                return out
+
         out.discarded = 'stored-file-not-wellformed:' + e.kind
         return out
 
